@@ -41,6 +41,8 @@ func init() {
 		{ID: "E8.hint.verifier-per-request-issuer", Fn: "op.(*Provider).IDTokenHintVerifier", P: []string{"o", "ctx"}, Kind: "ret any", Pat: "ret(op.NewIDTokenHintVerifier(op.IssuerFromContext($ctx), $o.idTokenHinKeySet, __))", Max: 1, Only: true,
 			Why: "the hint must name the issuer of the request at hand (a provider may serve several issuers)"},
 		{ID: "E8.hint.verifier-per-request-issuer.only", Fn: "op.(*Provider).IDTokenHintVerifier", Kind: "ret any", Max: 1},
+		{ID: "E8.hint.verifier.constructor-binds-configuration", Fn: "op.NewIDTokenHintVerifier", P: []string{"issuer", "keySet"}, Kind: "ret any", Pat: "ret(&IDTokenHintVerifier{Issuer: $issuer, KeySet: $keySet})", Max: 1, Only: true},
+		{ID: "E8.hint.verifier.constructor-binds-configuration.only", Fn: "op.NewIDTokenHintVerifier", Kind: "ret any", Max: 1},
 		{ID: "E1.hint.caller.authorize", Fn: "op.ValidateAuthReqIDTokenHint", P: []string{"ctx", "idTokenHint", "verifier"}, Kind: "ret ok", Pat: "ret($claims.GetSubject(), nil)", Max: 1,
 			Req: []string{"def($claims, op.VerifyIDTokenHint(_, $idTokenHint, $verifier), 0)", "ok(op.VerifyIDTokenHint(_, $idTokenHint, $verifier)) || errAs(op.VerifyIDTokenHint(_, $idTokenHint, $verifier), IDTokenHintExpiredError{})"}},
 	}
